@@ -26,7 +26,10 @@
                     not be written to was closed                    (3a27dcb)
      fx_connread    read_answers(): connection kept alive while being read (eb0f53d)
      fx_qidearly    ares_send_nolock(): *qid = id before ares_send_query, not after
-                    (8caadf2)                                                             *)
+                    (8caadf2)
+     fx_cancelmark  ares_cancel(): the queries it has taken are marked; ares_query_complete()
+                    reports ARES_ECANCELLED for a marked query whatever ended it
+                    (fixes/C01-cancel-complete.patch)                                     *)
 From Coq Require Import List ZArith Lia Bool Arith.
 Import ListNotations.
 From CAres.Base Require Import Outcome.
@@ -39,9 +42,12 @@ Definition tok := nat.
 Definition EDESYNC : Z := (-2)%Z.      (* tape does not fit / inadmissible choice *)
 Definition EINTERNAL : Z := (-3)%Z.    (* model-internal inconsistency (never, see proofs) *)
 
-Record fixes := { fx_unlink : bool; fx_search : bool; fx_revalidate : bool; fx_connread : bool; fx_qidearly : bool }.
-Definition all_fixed := {| fx_unlink := true; fx_search := true; fx_revalidate := true; fx_connread := true; fx_qidearly := true |}.
-Definition pinned := {| fx_unlink := false; fx_search := false; fx_revalidate := false; fx_connread := false; fx_qidearly := false |}.
+Record fixes := { fx_unlink : bool; fx_search : bool; fx_revalidate : bool; fx_connread : bool; fx_qidearly : bool;
+  fx_cancelmark : bool }.
+Definition all_fixed := {| fx_unlink := true; fx_search := true; fx_revalidate := true; fx_connread := true; fx_qidearly := true;
+  fx_cancelmark := true |}.
+Definition pinned := {| fx_unlink := false; fx_search := false; fx_revalidate := false; fx_connread := false; fx_qidearly := false;
+  fx_cancelmark := false |}.
 
 Record config := {
   cf_fix : fixes;
@@ -103,7 +109,8 @@ Inductive cbk :=
 
 Record query := {
   q_qid : nat; q_cb : cbk; q_conn : option obj;
-  q_try : nat; q_noretry : bool; q_tcp : bool; q_err : Z
+  q_try : nat; q_noretry : bool; q_tcp : bool; q_err : Z;
+  q_cancelled : bool         (* taken by a running ares_cancel() *)
 }.
 Record conn := { c_sock : nat; c_tcp : bool; c_queries : list obj; c_reading : bool; c_closed : bool }.
 Record hostq := {
@@ -125,9 +132,9 @@ Definition h_set_names l cs h := {| h_cb := h_cb h; h_remaining := h_remaining h
 Definition h_set_lookups l h := {| h_cb := h_cb h; h_remaining := h_remaining h; h_names := h_names h; h_cur_single := h_cur_single h;
   h_family := h_family h; h_lookups := l; h_localhost := h_localhost h; h_nodes := h_nodes h; h_v4 := h_v4 h;
   h_nodata := h_nodata h; h_qid_a := h_qid_a h; h_qid_aaaa := h_qid_aaaa h; h_nomem := h_nomem h |}.
-Definition h_set_ai nodes v4 nm h := {| h_cb := h_cb h; h_remaining := h_remaining h; h_names := h_names h; h_cur_single := h_cur_single h;
+Definition h_set_ai nodes v4 nm nd h := {| h_cb := h_cb h; h_remaining := h_remaining h; h_names := h_names h; h_cur_single := h_cur_single h;
   h_family := h_family h; h_lookups := h_lookups h; h_localhost := h_localhost h; h_nodes := nodes; h_v4 := v4;
-  h_nodata := h_nodata h; h_qid_a := h_qid_a h; h_qid_aaaa := h_qid_aaaa h; h_nomem := nm |}.
+  h_nodata := nd; h_qid_a := h_qid_a h; h_qid_aaaa := h_qid_aaaa h; h_nomem := nm |}.
 Definition h_set_nodata n h := {| h_cb := h_cb h; h_remaining := h_remaining h; h_names := h_names h; h_cur_single := h_cur_single h;
   h_family := h_family h; h_lookups := h_lookups h; h_localhost := h_localhost h; h_nodes := h_nodes h; h_v4 := h_v4 h;
   h_nodata := n; h_qid_a := h_qid_a h; h_qid_aaaa := h_qid_aaaa h; h_nomem := h_nomem h |}.
@@ -251,12 +258,13 @@ Definition get_conn (o : obj) : M conn :=
 Definition get_host (o : obj) : M hostq :=
   let! c := touch o in match c with CHost q => ret q | _ => fail EINTERNAL end.
 
-Definition set_q_cb k q := {| q_qid := q_qid q; q_cb := k; q_conn := q_conn q; q_try := q_try q; q_noretry := q_noretry q; q_tcp := q_tcp q; q_err := q_err q |}.
-Definition set_q_conn c q := {| q_qid := q_qid q; q_cb := q_cb q; q_conn := c; q_try := q_try q; q_noretry := q_noretry q; q_tcp := q_tcp q; q_err := q_err q |}.
-Definition set_q_try n q := {| q_qid := q_qid q; q_cb := q_cb q; q_conn := q_conn q; q_try := n; q_noretry := q_noretry q; q_tcp := q_tcp q; q_err := q_err q |}.
-Definition set_q_noretry b q := {| q_qid := q_qid q; q_cb := q_cb q; q_conn := q_conn q; q_try := q_try q; q_noretry := b; q_tcp := q_tcp q; q_err := q_err q |}.
-Definition set_q_tcp b q := {| q_qid := q_qid q; q_cb := q_cb q; q_conn := q_conn q; q_try := q_try q; q_noretry := q_noretry q; q_tcp := b; q_err := q_err q |}.
-Definition set_q_err e q := {| q_qid := q_qid q; q_cb := q_cb q; q_conn := q_conn q; q_try := q_try q; q_noretry := q_noretry q; q_tcp := q_tcp q; q_err := e |}.
+Definition set_q_cb k q := {| q_qid := q_qid q; q_cb := k; q_conn := q_conn q; q_try := q_try q; q_noretry := q_noretry q; q_tcp := q_tcp q; q_err := q_err q; q_cancelled := q_cancelled q |}.
+Definition set_q_conn c q := {| q_qid := q_qid q; q_cb := q_cb q; q_conn := c; q_try := q_try q; q_noretry := q_noretry q; q_tcp := q_tcp q; q_err := q_err q; q_cancelled := q_cancelled q |}.
+Definition set_q_try n q := {| q_qid := q_qid q; q_cb := q_cb q; q_conn := q_conn q; q_try := n; q_noretry := q_noretry q; q_tcp := q_tcp q; q_err := q_err q; q_cancelled := q_cancelled q |}.
+Definition set_q_noretry b q := {| q_qid := q_qid q; q_cb := q_cb q; q_conn := q_conn q; q_try := q_try q; q_noretry := b; q_tcp := q_tcp q; q_err := q_err q; q_cancelled := q_cancelled q |}.
+Definition set_q_tcp b q := {| q_qid := q_qid q; q_cb := q_cb q; q_conn := q_conn q; q_try := q_try q; q_noretry := q_noretry q; q_tcp := b; q_err := q_err q; q_cancelled := q_cancelled q |}.
+Definition set_q_err e q := {| q_qid := q_qid q; q_cb := q_cb q; q_conn := q_conn q; q_try := q_try q; q_noretry := q_noretry q; q_tcp := q_tcp q; q_err := e; q_cancelled := q_cancelled q |}.
+Definition set_q_cancelled b q := {| q_qid := q_qid q; q_cb := q_cb q; q_conn := q_conn q; q_try := q_try q; q_noretry := q_noretry q; q_tcp := q_tcp q; q_err := q_err q; q_cancelled := b |}.
 Definition set_c_queries l c := {| c_sock := c_sock c; c_tcp := c_tcp c; c_queries := l; c_reading := c_reading c; c_closed := c_closed c |}.
 Definition set_c_reading b c := {| c_sock := c_sock c; c_tcp := c_tcp c; c_queries := c_queries c; c_reading := b; c_closed := c_closed c |}.
 Definition set_c_closed b c := {| c_sock := c_sock c; c_tcp := c_tcp c; c_queries := c_queries c; c_reading := c_reading c; c_closed := b |}.
@@ -377,6 +385,13 @@ Definition write_qid (qd : option (obj * bool)) (qid : nat) : M unit :=
   | Some (o, aaaa) =>
       let! h := get_host o in
       store o (CHost (if aaaa then h_set_qids (h_qid_a h) qid h else h_set_qids qid (h_qid_aaaa h) h))
+  end.
+
+(* ares_cancel marking the queries it has taken (no callback runs in between) *)
+Fixpoint mark_cancelled (l : list obj) : M unit :=
+  match l with
+  | [] => ret tt
+  | qo :: r => (let! q := get_query qo in store qo (CQuery (set_q_cancelled true q))) ;; mark_cancelled r
   end.
 
 Section Run.
@@ -520,7 +535,7 @@ with send_nolock (fuel : nat) (k : cbk) (probe : bool) (qd : option (obj * bool)
       else
         (if cf_dns0x20 cf then (let! e := peek in match e with Some (TN _) => let! _ := pop in ret tt | _ => ret tt end) else ret tt) ;;
         let! qo := alloc (CQuery {| q_qid := qid; q_cb := k; q_conn := None; q_try := 0; q_noretry := probe;
-                                    q_tcp := false; q_err := ARES_SUCCESS |}) in
+                                    q_tcp := false; q_err := ARES_SUCCESS; q_cancelled := false |}) in
         link_all qo ;;
         modify (fun s => set_byqid ((qid, qo) :: st_byqid s) s) ;;
         (if fx_qidearly fx then write_qid qd qid else ret tt) ;;
@@ -624,7 +639,8 @@ with complete_query (fuel : nat) (qo : obj) (r : result) {struct fuel} : M unit 
   if fx_unlink fx then
     detach_query qo ;;
     let! q := get_query qo in
-    invoke f (q_cb q) r ;;
+    (* a query taken by ares_cancel() completes as cancelled whatever ended it *)
+    invoke f (q_cb q) (if q_cancelled q then res ARES_ECANCELLED else r) ;;
     release_query qo
   else
     let! q := get_query qo in
@@ -730,6 +746,7 @@ with cancel (fuel : nat) {struct fuel} : M unit :=
   (match st_lists s with
    | (_ :: _) as l :: rest =>
        modify (set_lists ([] :: l :: rest)) ;;
+       (if fx_cancelmark fx then mark_cancelled l else ret tt) ;;
        (if fx_unlink fx then cancel_loop_fixed f f else cancel_loop_pinned f l) ;;
        (* ares_llist_destroy(list_copy) *)
        modify (fun s => set_lists (match st_lists s with a :: _ :: r => a :: r | x => x end) s)
@@ -899,7 +916,9 @@ with host_callback (fuel : nat) (o : obj) (r : result) {struct fuel} : M unit :=
   let! h := get_host o in
   (* hquery->ai as left by the parser; hquery->nomem (740940b) *)
   let nm := h_nomem h || zeqb st ARES_ENOMEM || zeqb ais ARES_ENOMEM in
-  store o (CHost (h_set_ai nodes v4 nm h)) ;;
+  (* 3eb5c71: a no-data answer is remembered also when it is not the last of the pair *)
+  let nd := if negb (Nat.eqb rem 0) && (zeqb st ARES_ENODATA || zeqb ais ARES_ENODATA) then S (h_nodata h) else h_nodata h in
+  store o (CHost (h_set_ai nodes v4 nm nd h)) ;;
   (* terminate_retries: the other query of this lookup, found by its id, no longer retries *)
   (if zeqb st ARES_SUCCESS && zeqb ais ARES_SUCCESS && v4 && negb (Nat.eqb rem 0) then
      let id := match r_rec r with Some (_, _, id) => id | None => 0 end in
